@@ -192,6 +192,25 @@ class NpProxy:
         return _np.isnan(x)
 
     @staticmethod
+    def isfinite(x):
+        """symbolic values are finite reals; concrete members (which may be inf/nan) are tested one by one"""
+        if isinstance(x, _np.ndarray) and x.dtype == object:
+            return _np.array([True if is_sym(v) else bool(_np.isfinite(float(v))) for v in x.ravel()], dtype=bool).reshape(x.shape)
+        if is_sym(x):
+            return True
+        if isinstance(x, (list, tuple)) and any_sym(x):
+            return NpProxy.isfinite(_np.array(x, dtype=object))
+        return _np.isfinite(x)
+
+    @staticmethod
+    def isinf(x):
+        if isinstance(x, _np.ndarray) and x.dtype == object:
+            return _np.array([False if is_sym(v) else bool(_np.isinf(float(v))) for v in x.ravel()], dtype=bool).reshape(x.shape)
+        if is_sym(x):
+            return False
+        return _np.isinf(x)
+
+    @staticmethod
     def isclose(a, b, rtol=1e-05, atol=1e-08, equal_nan=False):  # noqa: FBT002
         """numpy's definition |a - b| <= atol + rtol * |b| (finite symbolic reals; scalars or equal-shape arrays)."""
         if not (any_sym(a) or any_sym(b) or any_sym(atol) or any_sym(rtol)):
